@@ -96,7 +96,7 @@ for d in sorted(glob.glob(f'{ROOT}/seeded/C*-*')):
     what=(meta.get('breaks','')+' — needs: '+meta.get('needs_to_manifest',''))[:260].replace('|','/')
     out.append(f"| {name} | {name.split('-')[0]} | {what} | {meta.get('confirmed','?')} | {r[0]} quick: {r[1]} | {sigs} |")
 out.append('')
-out.append('### 9.6 Thorough-tier and multi-seed runs on the unchanged tree (logs/thorough-summary.txt, logs/seeds-summary.txt; rc 124 = killed by the 100 min cap of the campaign script while the machine was shared with ~10 other jobs, not a verdict)\n')
+out.append('### 9.6 Thorough-tier and multi-seed runs on the unchanged tree (results/thorough-summary.txt, results/seeds-summary.txt = copies of the git-ignored logs/; rc 124 = killed by the 100 / 50 min cap of the campaign script while the machine was shared with ~10 other jobs, not a verdict)\n')
 out.append('| run | exit | wall | summary |')
 out.append('|---|---|---|---|')
 tf=f'{ROOT}/logs/thorough-summary.txt'
